@@ -39,11 +39,13 @@ def gen_texts(ctx, n_fm, n_long):
     for i in range(n_fm):
         g = F.Gen(ctx.rng, FEATURES)
         prog = g.program(nstmts=ctx.rng.randint(4, 9), depth=2)
-        out.append((f'generated:fm', F.render(prog)))
+        out.append(('generated:fm', F.render(prog)))
     for i in range(n_long):
-        g = G.LongGen(ctx.rng, FEATURES)
+        # most programs without apostrophes in literals: the C04 defect (a literal with a doubled quote broken across
+        # lines) makes the generated text unreadable and would hide everything else in the program
+        g = G.LongGen(ctx.rng, FEATURES, apostrophes=(i % 4 == 3))
         prog = g.program(nstmts=ctx.rng.randint(5, 9), depth=2, nest_levels=ctx.rng.choice([0, 4]))
-        out.append((f'generated:long', G.long_program_text(prog, ctx.rng)))
+        out.append(('generated:long', G.long_program_text(prog, ctx.rng)))
     return out
 
 
